@@ -169,6 +169,10 @@ class SchedWorld(object):
         self.tx = {j: 'none' for j in jobs}
         self.jobid = {}         # db id -> j
         self.errors = []
+        self.armed = set()      # instances whose next capture is interfered with (see _ghost_capture)
+        self.ghosts = []
+        self.pickup = pickup
+        self.cap_timeout = cap_timeout
         for i in range(1, n_inst + 1):
             self._make_instance(i)
 
@@ -210,6 +214,9 @@ class SchedWorld(object):
             j = world._j_of_args(job.func_args)
             if g is not None and not _in_tx():
                 g.park('capture', j)
+            if i in world.armed:
+                world.armed.discard(i)
+                world._ghost_capture(job, j)
             ok = orig_capture(job)
             if ok:
                 world.lastcap[(i, j)] = world.now
@@ -272,6 +279,36 @@ class SchedWorld(object):
         s._capture_calls = capture
         s._invoke_calls = invoke
         s.delete_calls = delete
+
+    def _ghost_capture(self, job, j):
+        """Statement-level interference: another scheduler process - which selected the same eligible row from the job store -
+        captures it (committed) and starts invoking it right before this instance's own capture statement.  Possible under
+        READ COMMITTED between the SELECT of a store poll (or the in-memory copy) and the capture UPDATE; two real
+        transactions cannot be interleaved like that in this sandbox, so the other process is played by raw SQL."""
+        import sqlalchemy as sa
+        from mistral.db.sqlalchemy import base as db_base
+        rows = mdb.raw_rows('select execute_at, captured_at from scheduled_jobs_v2 where id = :i', {'i': job.id}) if not _in_tx() else None
+        ses = db_base._get_thread_local_session()
+        if rows is None:
+            rows = [tuple(r) for r in ses.execute(sa.text('select execute_at, captured_at from scheduled_jobs_v2 where id = :i'), {'i': job.id})]
+        if not rows:
+            return
+        ex, cap = self._vt(rows[0][0]), (self._vt(rows[0][1]) if rows[0][1] is not None else None)
+        # the other process may capture it only if its own store poll would select it
+        eligible = (cap is None and ex < self.now - self.pickup) or (cap is not None and cap <= self.now - self.cap_timeout)
+        if not eligible:
+            return
+        stamp = (BASE + datetime.timedelta(seconds=self.now)).strftime('%Y-%m-%d %H:%M:%S.000000')
+        if ses is not None:
+            ses.execute(sa.text('update scheduled_jobs_v2 set captured_at = :c where id = :i'), {'c': stamp, 'i': job.id})
+        else:
+            with db_base.get_engine().begin() as conn:
+                conn.execute(sa.text('update scheduled_jobs_v2 set captured_at = :c where id = :i'), {'c': stamp, 'i': job.id})
+        # ... and invokes the target under that capture
+        self.inv_count[j] += 1
+        self.inv_at[j] = self.now
+        self.inv_caps[j].add(self.now)
+        self.ghosts.append((j, self.now))
 
     def _record_invocation(self, i, j):
         # the capture under which this invocation runs = the capture made by the same real
